@@ -158,6 +158,7 @@ class Flow:
         self.self_name = None
         if fi.cls and not fi.is_staticmethod and fi.positional_params:
             self.self_name = fi.positional_params[0]
+        self.local_imports = {}
         self.locals = self._collect_locals()
         self.defs = []
         self.gen = {n.id: [] for n in self.cfg.nodes}
@@ -183,7 +184,12 @@ class Flow:
                 names.add(n.name)
             elif isinstance(n, (ast.Import, ast.ImportFrom)):
                 for al in n.names:
-                    names.add((al.asname or al.name).split(".")[0])
+                    local = (al.asname or al.name).split(".")[0]
+                    names.add(local)
+                    if isinstance(n, ast.Import):
+                        self.local_imports[local] = al.name if al.asname else al.name.split(".")[0]
+                    elif not n.level:
+                        self.local_imports[local] = (n.module or "") + "." + al.name
             elif isinstance(n, ast.ExceptHandler) and n.name:
                 names.add(n.name)
         # comprehension targets are stored names found by iter_scope only at
